@@ -338,6 +338,8 @@ pub trait SerOps {
     fn reserialize(&self, b: &[u8]) -> Result<Vec<u8>, HpkeError>;
     /// v = from_bytes(b); v2 = from_bytes(to_bytes(v)); Some(v == v2) when the type has Eq
     fn roundtrip_eq(&self, b: &[u8]) -> Result<Option<bool>, HpkeError>;
+    /// va = from_bytes(a), vb = from_bytes(b): (Some(va == vb) when the type has Eq, to_bytes(va), to_bytes(vb))
+    fn pair_eq(&self, a: &[u8], b: &[u8]) -> Result<(Option<bool>, Vec<u8>, Vec<u8>), HpkeError>;
     /// from_bytes(valid) then write_exact into a buffer of `buflen` bytes (filled with 0xCC);
     /// panics exactly when hpke's write_exact panics
     fn write_exact(&self, valid: &[u8], buflen: usize) -> Result<Vec<u8>, HpkeError>;
@@ -356,6 +358,11 @@ impl<T: Serializable + Deserializable> SerOps for SerOf<T> {
         let v = T::from_bytes(b)?;
         let v2 = T::from_bytes(&v.to_bytes())?;
         Ok(self.1.map(|f| f(&v, &v2)))
+    }
+    fn pair_eq(&self, a: &[u8], b: &[u8]) -> Result<(Option<bool>, Vec<u8>, Vec<u8>), HpkeError> {
+        let va = T::from_bytes(a)?;
+        let vb = T::from_bytes(b)?;
+        Ok((self.1.map(|f| f(&va, &vb) && f(&vb, &va)), va.to_bytes().to_vec(), vb.to_bytes().to_vec()))
     }
     fn write_exact(&self, valid: &[u8], buflen: usize) -> Result<Vec<u8>, HpkeError> {
         let v = T::from_bytes(valid)?;
